@@ -128,6 +128,13 @@ def one_history(ctx, index: int, rng: random.Random):
                  detail={"error": str(e)[:200], **desc})
         rec.case(desc, False, cls="raised:construct")
         return
+    if prefilled and rng.random() < 0.25:
+        # "started empty": the emptied copy of a pre-filled histogram keeps the bins and must behave like a new one
+        h = h.copy(include_frequencies=False)
+        ledger_rows = np.zeros((0, nd))
+        ledger_w = []
+        prefilled = False
+        desc["steps"].append(["emptied_copy", []])
     # initial state must already be loss-free
     with attach.quiet():
         s0 = snap.snapshot(h, with_stats=False)
@@ -210,7 +217,11 @@ def one_history(ctx, index: int, rng: random.Random):
                 for ax in range(nd):
                     mn, mx = float(ledger_rows[:, ax].min()), float(ledger_rows[:, ax].max())
                     b = bins[ax]
-                    if len(b) == 0 or not (b[0, 0] <= mn < b[0, 1]) or not (b[-1, 0] <= mx < b[-1, 1]):
+                    emptied = any(st[0] == "emptied_copy" for st in desc["steps"])  # keeps the bins of the histogram it was copied from
+                    if emptied:
+                        if len(b) == 0 or not (b[0, 0] <= mn and mx < b[-1, 1]):
+                            rec.fail(monitor="C04.history.final", op="final", symptom="bins do not cover the values entered", diff=["bins", "coverage"], detail={"axis": ax, **desc})
+                    elif len(b) == 0 or not (b[0, 0] <= mn < b[0, 1]) or not (b[-1, 0] <= mx < b[-1, 1]):
                         rec.fail(monitor="C04.history.final", op="final", symptom="bins do not span exactly from the lowest to the highest value entered",
                                  diff=["bins", "span"], detail={"axis": ax, "min": mn.hex(), "max": mx.hex(), "first": b[:1], "last": b[-1:], **desc})
                     if align:
